@@ -8,6 +8,8 @@ dimension-wise: the real performSpatiallyAdaptiv loop on an uninterpreted integr
                     == the result of an identical run with reevaluate_at_end=True
                     == sum_i W_i F(P_i) over get_points_and_weights()
 dim-adaptive (DimAdaptiveCombi.perform_combi): reported integral == sum_g c_g * trapezoidal rule on grid g of the final scheme.
+extend-split: histories of scripted error flags up to an evaluation cap; reported result == sum over leaf areas and computed component
+  grids of c_g * trapezoidal rule on the area == evaluate_final_combi() == run with reevaluate_at_end=True (vector-valued F included).
 standard: covered by C02 (integral:* goals) and re-checked here through get_points_and_weights for vector-valued F.
 """
 import itertools
@@ -18,7 +20,7 @@ import numpy as np
 from lift import core, lib
 from lift.core import sym_and, is_sym
 from lift.run import Job
-from harness import dw, drv
+from harness import dw, drv, es
 
 PROPERTY = 'C05'
 
@@ -114,9 +116,12 @@ def dimadaptive(S, d, out_len, max_points):
 
 BOUNDS = {
     'quick': {'dimension-wise': 'd=2, (lmin,lmax)=(1,2), versions 6 and 3, boundary on/off, output length 1/2, stops after 0..2 refinement rounds, 1 selected interval per round (or all)',
-              'dim-adaptive': 'd=2, maxv=2 (as the code demands), at most 30 points, output length 1/2'},
+              'dim-adaptive': 'd=2, maxv=2 (as the code demands), at most 30 points, output length 1/2',
+              'extend-split': 'd=2, (1,2), versions 0/1, 1-2 refinements before extend, automatic extend/split on/off, output length 1/2, every history of scripted error flags '
+                              '(2 candidate areas per round) up to an evaluation cap of 30/60 points'},
     'thorough': {'dimension-wise': 'd=2: (1,2) stops after 0..3 rounds, (1,3)/(2,3) 0..2 rounds; d=3: (1,2) 0..2 rounds; versions 6,2,3,7,8; boundary on/off; 1 selected interval per round (or all)',
-                 'dim-adaptive': 'd=2 at most 60 points, d=3 at most 40 points'},
+                 'dim-adaptive': 'd=2 at most 60 points, d=3 at most 40 points',
+                 'extend-split': 'd=2 (1,2): versions 0,1,2 x nrbe 1,2 x output length 1,2 with caps 30/60/110; automatic extend/split caps 36/60; (1,3) cap 130; d=3 (1,2) cap 160'},
 }
 
 META = {
@@ -124,11 +129,11 @@ META = {
                   'SpatiallyAdaptiveSingleDimensions2.evaluate_operation_area', 'init_evaluation_operation', 'finalize_evaluation_operation', 'get_points_and_weights_component_grid',
                   'StandardCombi.get_points_and_weights', 'Integration.calculate_operation_dimension_wise', 'Integration.initialize_evaluation_dimension_wise', 'Integration.get_result',
                   'GlobalTrapezoidalGrid.*', 'GlobalGrid.set_grid', 'Grid.integrate', 'IntegratorArbitraryGridScalarProduct', 'DimAdaptiveCombi.perform_combi/calculate_surplus',
-                  'Function.__call__'],
+                  'Function.__call__', 'SpatiallyAdaptiveExtendScheme.*', 'RefinementObjectExtendSplit.*', 'Integration.process_removed_objects', 'Integration.evaluate_area'],
     'bounds': BOUNDS,
     'assumptions': ['refinement decisions are scripted (P3): in every round the solver picks one interval (or all) to refine; the number of rounds (stopping point) is a solver choice',
                     'tolerance 0 with an estimator that reports 0 after the chosen number of rounds is what ends the run; stopping rules themselves are C13'],
-    'outside': ['dim-adaptive runs that never stop: perform_combi loops forever when the grid it selects is not refinable and neither the tolerance nor the point limit is met; such paths are cut at 4000 decisions and counted (paths_cut_at_decision_bound) - the property speaks about stops only', 'cell strategy', 'high-order / hierarchical grids', 'extend-split (see C07/C04 harnesses)', 'more rounds than stated'],
+    'outside': ['dim-adaptive runs that never stop: perform_combi loops forever when the grid it selects is not refinable and neither the tolerance nor the point limit is met; such paths are cut at 4000 decisions and counted (paths_cut_at_decision_bound) - the property speaks about stops only', 'cell strategy', 'high-order / hierarchical grids', 'more rounds than stated'],
 }
 
 MANIFEST_ENTRY = {
@@ -138,8 +143,63 @@ MANIFEST_ENTRY = {
 }
 
 
+def _area_trapezoid(f, start, end, lv, out_len):
+    """Harness-side reference: trapezoidal rule with boundary points on the box [start,end] with 2**l_k cells in dimension k."""
+    axes = []
+    for k, l in enumerate(lv):
+        n = 2 ** int(l)
+        a, b = float(start[k]), float(end[k])
+        h = (b - a) / n
+        axes.append([(a + i * h, h / 2 if i in (0, n) else h) for i in range(n + 1)])
+    tot = [0] * out_len
+    for combo in itertools.product(*axes):
+        w = 1.0
+        for c in combo:
+            w = w * c[1]
+        fv = f.F([c[0] for c in combo])
+        for j in range(out_len):
+            tot[j] = tot[j] + w * fv[j]
+    return tot
+
+
+def extendsplit(S, d, lmin, lmax, version, nrbe, auto, pool, cap, out_len):
+    """Extend-split with solver-chosen refinement histories up to the evaluation cap (every cap = another stopping point)."""
+    f = lib.make_function(S, 'F', d, out_len)
+    box = (0.0, 1.0)
+    sa, op, a, b, res = es.run_es(S, d, lmin, lmax, box, True, version, nrbe, auto, False, pool, cap, f)
+    result = list(np.ravel(res[3]))
+    S.prove(len(result) == out_len, 'extendsplit:result-has-one-entry-per-output-component')
+    S.observe('areas', len(es.leaves(sa)))
+    tot = [0] * out_len
+    for area in es.leaves(sa):
+        for cg in sa.scheme:
+            lv, do_compute = sa.coarsen_grid(cg.levelvector, area)
+            if not do_compute:
+                continue
+            part = _area_trapezoid(f, area.start, area.end, lv, out_len)
+            for j in range(out_len):
+                tot[j] = tot[j] + cg.coefficient * part[j]
+    S.prove(sym_and(*[S.eq(result[j], tot[j]) for j in range(out_len)]), 'extendsplit:result-is-coefficient-weighted-sum-over-areas-and-component-grids')
+    again = list(np.ravel(sa.evaluate_final_combi()[0]))
+    S.prove(sym_and(*[S.eq(result[j], again[j]) for j in range(out_len)]), 'extendsplit:evaluate_final_combi-reproduces-result')
+    f2 = lib.make_function(S, 'F', d, out_len)
+    sa2, op2, a2, b2, res2 = es.run_es(S, d, lmin, lmax, box, True, version, nrbe, auto, False, pool, cap, f2, reevaluate=True)
+    r2 = list(np.ravel(res2[3]))
+    S.prove(len(es.leaves(sa2)) == len(es.leaves(sa)), 'extendsplit:reevaluate_at_end-same-refinement')
+    S.prove(sym_and(*[S.eq(result[j], r2[j]) for j in range(out_len)]), 'extendsplit:reevaluate_at_end-does-not-change-result')
+
+
 def jobs(tier):
     js = []
+    q = tier == 'quick'
+    for (d, lmin, lmax, version, nrbe, auto, out_len, caps) in (
+            [(2, 1, 2, 0, 1, False, 2, (30, 60)), (2, 1, 2, 0, 2, False, 1, (60,)), (2, 1, 2, 1, 1, False, 2, (60,)), (2, 1, 2, 0, 1, True, 2, (30,))] if q else
+            [(2, 1, 2, v, n, False, o, (30, 60, 110)) for v in (0, 1, 2) for n in (1, 2) for o in (1, 2)] + [(2, 1, 2, 0, 1, True, 2, (36, 60)), (2, 1, 3, 0, 1, False, 2, (130,)),
+                                                                                                          (3, 1, 2, 0, 1, False, 2, (160,))]):
+        for cap in caps:
+            js.append(Job('extendsplit[d=%d,l=%d-%d,v=%d,nrbe=%d%s,out=%d,cap=%d]' % (d, lmin, lmax, version, nrbe, ',auto' if auto else '', out_len, cap), extendsplit,
+                          {'d': d, 'lmin': lmin, 'lmax': lmax, 'version': version, 'nrbe': nrbe, 'auto': auto, 'pool': 1 if (q and auto) else 2, 'cap': cap, 'out_len': out_len},
+                          validate=(7 if q else 3), budget_s=(600 if q else 3000)))
     if tier == 'quick':
         cfgs = [(2, 1, 2, v, b, o, 2) for v in (6, 3) for b in (True, False) for o in (1, 2)]
     else:
